@@ -150,13 +150,25 @@ RETURNS = [True, False, 0, 1, "", "x", None, []]
 RAISES = {"none": (), "ValueError": ValueError, "tuple": (KeyError, ValueError)}
 # what a custom function raises -> (exception class, is it listed under a non-empty `raises`?)
 RAISE_KINDS = {"listed": (ValueError, True), "listed-subclass": (UnicodeError, True),
-               "unlisted": (RuntimeError, False), "unlisted-superclass": (Exception, False)}
+               "unlisted": (RuntimeError, False), "unlisted-superclass": (Exception, False),
+               # exceptions the library itself might catch for its own purposes (dict lookups, iteration, attribute
+               # access): listed only where the `raises` tuple names them
+               "KeyError": (KeyError, "tuple"), "IndexError": (IndexError, False), "LookupError": (LookupError, False),
+               "AttributeError": (AttributeError, False), "TypeError": (TypeError, False),
+               "StopIteration": (StopIteration, False)}
+
+
+def is_listed(cfg_raises, kind):
+    flag = RAISE_KINDS[kind][1]
+    return flag is True or flag == cfg_raises
 
 
 def all_configs():
     out = [{"kind": "none"}, {"kind": "default"}]
     for mask in range(1 << len(SUBSET_BASE)):
         out.append({"kind": "subset", "formats": [n for i, n in enumerate(SUBSET_BASE) if mask >> i & 1]})
+    for how in ("tuple", "set", "generator", "iterator", "dict-keys"):
+        out.append({"kind": "subset", "formats": list(SUBSET_BASE[:2]), "as": how})
     for a in DRAFT_CHECKERS:
         out.append({"kind": "draft", "attr": a})
     for base in ("empty", "default"):
@@ -188,7 +200,12 @@ class Built(object):
         elif k == "default":
             self.chk, self.known = FormatChecker(), set(CLASS_REGISTRY)
         elif k == "subset":
-            self.chk, self.known = FormatChecker(formats=list(cfg["formats"])), set(cfg["formats"])
+            names = list(cfg["formats"])
+            how = cfg.get("as", "list")
+            arg = {"list": lambda: names, "tuple": lambda: tuple(names), "set": lambda: set(names),
+                   "generator": lambda: (n for n in names), "iterator": lambda: iter(names),
+                   "dict-keys": lambda: dict.fromkeys(names).keys()}[how]()
+            self.chk, self.known = FormatChecker(formats=arg), set(names)
         elif k == "draft":
             self.chk = getattr(jsonschema, cfg["attr"])
             self.known = set(self.chk.checkers)
@@ -240,7 +257,7 @@ def expected(cfg, known, name, x):
             return "pass" if RETURNS[beh[1]] else "fail"
         if beh[0] == "pred":
             return "pass" if isinstance(x, str) else "fail"
-        if beh[1] != "unlisted-nothing-listed" and RAISE_KINDS[beh[1]][1]:
+        if beh[1] != "unlisted-nothing-listed" and is_listed(cfg["raises"], beh[1]):
             return "fail-cause"
         return "propagate"
     if not isinstance(x, str):
